@@ -7,83 +7,83 @@ CHECKS = {
  "C06": ("bounded-exhaustive enumeration of all delimiter-free strings and all fragment sequences up to a size, executed on the real lexer/parser/renderer",
          "Every string over the lexer-significant alphabet up to the length bound and every fragment sequence up to the bound is rendered by the real code and compared with the identity / concatenation oracle; within the bound the result is a coverage statement, not a sample.",
          "Assumes the symbol alphabet represents the lexer's case distinctions (it contains every byte the lexer tests for plus control/high/multi-byte representatives); canonical spelling of verbatim delimiters.",
-         "DESIGN.md §3 C06"),
+         "DESIGN.md §3 (C06), §4, §6"),
  "C17": ("bounded-exhaustive enumeration of inputs (every BMP scalar; all strings up to a length over special-symbol alphabets) per escaping filter, executed through ApplyFilter and the template syntax",
          "Each escaping filter is run on every BMP code point and on every string up to the bound over three alphabets of dangerous symbols, by both application routes, and judged by the statement's predicates with independent decoders; within the bounds this is exhaustive.",
          "Independent decoders (html.UnescapeString, url.QueryUnescape, own \\uXXXX decoder) are trusted; exact-value oracles for escapejs/iriencode on valid UTF-8 only. One fixture-pinned deviation of escapejs is a recorded known finding.",
-         "DESIGN.md §3 C17"),
+         "DESIGN.md §3 (C17), §4, §6"),
  "C18": ("bounded-exhaustive sweep of each data filter's argument window (bounds, widths, counts, positions, value grids) over sequence kinds and string lengths, compared with independent reference functions",
          "For every filter the whole integer window and every input length up to the bound is executed through ApplyFilter and through the template syntax and compared with a small independent reference (exact) or shape predicate (layout filters).",
          "Reference functions are written from Django's documentation and the repository fixtures; behaviour the property leaves open (listed in the evidence assumptions) is executed but not judged.",
-         "DESIGN.md §3 C18"),
+         "DESIGN.md §3 (C18), §4, §6"),
  "C14": ("exhaustive fault enumeration: for every small program every failing-call position and every failing/short Write position is executed on all four Execute entry points",
          "All programs up to N output nodes in 14 wrapper constructs x every fault point (k-th evaluated call fails, j-th Write of the caller's writer fails or is short) are run on Execute, ExecuteBytes, ExecuteWriter and ExecuteWriterUnbuffered with a recording writer; agreement, all-or-nothing, prefix and error hand-back are checked on each.",
          "Fault seams are the public io.Writer and a context function, both implemented by the harness; output nodes are text or one call (filters/expressions inside nodes belong to other properties).",
-         "DESIGN.md §3 C14", "fault_enumeration"),
+         "DESIGN.md §3 (C14), §4, §6", "fault_enumeration"),
  "C16": ("bounded-exhaustive enumeration of lexer inputs (all strings up to a length, structured opener/inner/closer strings) and of every single-token edit of a tag-covering corpus in every layout, positions checked against the source",
          "Every token of every enumerated input is mapped from (line, col) back to a byte offset where its spelling must be found; every error produced by every single-token edit of the corpus must name an involved template, point inside it at its token, and shift exactly with an inserted prefix.",
          "The position convention (line = 1 + LFs before, col = 1 + bytes since line start, strings at their quote) is read from the lexer; one fixture-pinned deviation (load failures) is a recorded known finding.",
-         "DESIGN.md §3 C16"),
+         "DESIGN.md §3 (C16), §4, §6"),
  "C07": ("bounded-exhaustive enumeration of all expression trees up to an operator bound, printed in several spellings/spacings, compared with an independent typed tree evaluator",
          "Every tree with <=2 operators over the full operator set (and <=3 over a reduced set) is evaluated by a reference evaluator that never sees precedence, printed with minimal parentheses for the documented grammar, and rendered by the real engine in output and if position; values, zero-divisor errors and short-circuit call counts are compared.",
          "The judged fragment excludes what the property leaves open (listed in the evidence rule); one grammar-design deviation (sign of zero under a prefix minus) is a recorded known finding.",
-         "DESIGN.md §3 C07"),
+         "DESIGN.md §3 (C07), §4, §6"),
  "C15": ("bounded-exhaustive enumeration of documents (whitespace runs x constructs x every subset of dash markers x all four option settings) with a metamorphic hand-stripped twin; spaceless bodies up to a length",
          "Every document of the bounded family is rendered with its markers/options and compared with the rendering of the source from which the generator deleted exactly the named whitespace by hand; spaceless is compared with a direct reference. Exhaustive within the whitespace-run alphabet and construct set.",
          "The hand-stripping rules are those of the property text (DESIGN.md Appendix A.7); first render of a fresh compile only (repeated renders are C04).",
-         "DESIGN.md §3 C15"),
+         "DESIGN.md §3 (C15), §4, §6"),
  "C09": ("bounded-exhaustive generation of control-flow programs (all option subsets, all branch-presence combinations, all data sequences up to a length, nesting depth <=3) compared with a reference interpreter of the generated tree",
          "Every program of the generated families is rendered on a fresh compile by the real engine and compared byte for byte with an independent interpreter of the same tree written from the property text; forloop fields are printed at every iteration and nesting depth, so off-by-one and boundary faults show for some enumerated length.",
          "Reference semantics: DESIGN.md Appendix A.1/A.4. Programs the property leaves open are counted, not judged.",
-         "DESIGN.md §3 C09"),
+         "DESIGN.md §3 (C09), §4, §6"),
  "C12": ("bounded-exhaustive generation of all nestings (depth <=3/4) and two-construct sequences of binding constructs with colliding names, probed before/inside/after, compared with a reference environment model; deep snapshot of caller Context and Globals around every execution",
          "All nestings and sequences over 11 binding constructs are rendered and compared with an independent environment model in which every binding carries a unique literal, so the output names which binding is visible at every probe; caller data is deep-compared before and after each execution of every generated program (here and in C09/C13).",
          "Reference environment: DESIGN.md Appendix A.5 (child scopes copy, set binds at its own level, globals < context < tag scope, globals visible under include only).",
-         "DESIGN.md §3 C12"),
+         "DESIGN.md §3 (C12), §4, §6"),
  "C13": ("bounded-exhaustive generation of macro signatures x default subsets x argument counts/kinds x definition routes against a reference binding model; all base-case-free call graphs over <=3 macros x file placements executed in isolated sub-processes",
          "Every signature/call combination within the bounds is rendered through a local definition, an import and an aliased import and compared with the reference binding; every recursion graph is run in a fresh process whose death (stack overflow) or hang is a violation, and must yield an execution error.",
          "Process isolation with a 32 MB stack cap makes unbounded recursion observable within a second; reference binding: DESIGN.md Appendix A.5.",
-         "DESIGN.md §3 C13"),
+         "DESIGN.md §3 (C13), §4, §6"),
  "C10": ("bounded-exhaustive generation of inheritance chains (depth, per-level block options absent/override/override+Super/new nested block, five base placements) rendered at every level against a reference block resolution; invalid shapes must be compile errors",
          "All chains within the bounds are served from an in-memory loader; the leaf is compiled first, then every level and finally the base again are rendered and compared with an independent resolution (most-derived wins, Super = next less-derived, empty at the bottom, junk outside blocks ignored, base unaffected by its children).",
          "Reference resolution: DESIGN.md Appendix A.6. Block bodies are marker texts, so any wrong definition or Super level shows in the output.",
-         "DESIGN.md §3 C10"),
+         "DESIGN.md §3 (C10), §4, §6"),
  "C19": ("bounded-exhaustive enumeration of filter chains (length <=3/4) x inputs x expression positions and the filter tag, compared with the direct composition of the public ApplyFilter; every registered filter per route; unknown names at every position; double registration",
          "Every chain within the bound at every position where a filter can be written is rendered and compared with the left-to-right composition of ApplyFilter on the same values (printed form, truthiness, iteration, error-ness); arguments bound by enclosing constructs check scoping of parameters; operators around a filtered operand check binding strength.",
          "The oracle is the implementation's ApplyFilter, as the property states; the filter list comes from the registry hook, so a newly added filter is covered.",
-         "DESIGN.md §3 C19"),
+         "DESIGN.md §3 (C19), §4, §6"),
  "C08": ("bounded-exhaustive enumeration of access paths (<=2/3 dot steps + final subscript; every call form on every callable) over a fixed object graph built twice - Go values for the engine, a model tree for a step-wise reference resolver",
          "Every path within the bound from every context root (struct pointer/value, maps with string/int keys, slices, arrays, strings, scalars, nil, funcs and methods of every accepted signature incl. variadic, *Value, implicit context, (T, error), interface-typed parameters) is rendered in three sinks and compared with the reference resolver: value, empty, or execution error - never a panic or another value. Shadowing of globals/context/tag scope is enumerated over all 16 combinations.",
          "The model tree is written by hand parallel to the Go object graph; behaviour the property leaves open is skipped and counted (see evidence assumptions).",
-         "DESIGN.md §3 C08"),
+         "DESIGN.md §3 (C08), §4, §6"),
  "C11": ("bounded-exhaustive enumeration of loader configurations x virtual file trees x reference kinds x name forms x referrer locations, two-hop chains and inheritance+include, observed through recording in-memory loaders and a canary file on the real file system",
          "Every configuration within the bounds is compiled and rendered through recording loaders: the set of fetched paths must equal the closure of the referenced names, the first loader holding a name must serve it (later loaders not asked), missing names are errors (or nothing with if_exists, which must not swallow errors of existing files), each hop is resolved relative to the referring file, and a real file no loader serves is never read.",
          "Harness loaders follow DESIGN.md Appendix A.8; expectations are computed by the generator from its knowledge of the tree.",
-         "DESIGN.md §3 C11"),
+         "DESIGN.md §3 (C11), §4, §6"),
  "C02": ("bounded-exhaustive composition of data-flow routes (taint sources x carrier chains up to depth 2/3 x print sinks) plus every registered filter on tainted input/argument, judged by a marker-absence and differential-count oracle",
          "Every opt-out-free program built from 23 taint sources, all chains of up to 2 (thorough 3) of 33 carriers and 7 sinks, every registered filter (registry hook) with tainted input or argument, tags printing their arguments, inheritance/Super routes and the scope of the explicit opt-outs is rendered with a marker made of < > & ' \" in every string leaf; no raw fragment of the marker may appear and the count of raw special characters may not exceed that of the same program on a harmless twin value.",
          "Non-interference is checked on the enumerated route compositions only; transformations that hide the marker without emitting raw specials are fine by the property.",
-         "DESIGN.md §3 C02"),
+         "DESIGN.md §3 (C02), §4, §6"),
  "C03": ("bounded-exhaustive enumeration of ban targets (every registered tag and filter, registry hook) x syntactic positions x nesting bodies x file-composition routes, and explicit-state enumeration of all API call histories up to depth 4/5 against a ban-set/frozen-flag model",
          "For each ban target a template using it by every route must be refused (at compile time; lazy includes at execution), harness-registered probe tag/filter counters must stay 0, a banned include/ssi/import/extends must fetch nothing, other sets are unaffected and a control template behaves byte-identically to a fresh set. Every history over BanTag/BanFilter/From*/Render* up to the depth bound is replayed on the real set; each return value and a final vector of six probe verdicts must equal the model's.",
          "Histories are enumerated without state merging (every path is executed on a fresh real set); the abstract state space has 16 states. Render* shortcuts panic with *Error on a compile error: counted as refusal.",
-         "DESIGN.md §3 C03"),
+         "DESIGN.md §3 (C03), §4, §6"),
  "C01": ("bounded-exhaustive enumeration in seven layers (raw strings, token sequences per registered tag, value universe x access paths, every filter x input x argument by three routes, filter 2-chains, tag/operator schemas filled from the universe, composition cycles / deep nesting / resource caps) executed in isolated worker processes with crash and hang attribution",
          "Every case of every layer within the bounds is compiled and, if it compiles, executed against a context holding the whole value universe; workers are separate processes with a 32 MB stack cap and a progress watchdog, a dead or hung worker is attributed to the case it had announced and the case is re-run in isolation; risky families run one sub-process per case. Oracle: exactly one of template/error, Execute returns, no panic, process alive, no hang.",
          "The tag/filter lists come from the registry hooks (a newly registered tag or filter is covered). Composition cycles kill the process on the pinned tree: 14 recorded known findings, one per cycle shape.",
-         "DESIGN.md §3 C01"),
+         "DESIGN.md §3 (C01), §4, §6"),
  "C04": ("explicit-state exploration of all execution histories (length <=3/4 over a 4-context alphabet incl. a failing and a nil context) on one compiled template per program and option setting; state = canonical deep snapshot of everything reachable from the template; invariant + differential oracle",
          "For every program (every tag, all nested pairs, whitespace layouts) x option setting the template is compiled once and every history of executions is run: after each execution a reflect/unsafe deep snapshot of the whole compiled object graph (nodes, tokens, blocks, macros, set, parents, included templates) must equal the initial one, and the (output, error) pair must equal that of a freshly compiled template on the same context.",
          "Unexported package-level variables are not reachable by the snapshot (only their effect on later executions is seen); the quantifier's static clause is a different family and not covered.",
-         "DESIGN.md §3 C04"),
+         "DESIGN.md §3 (C04), §4, §6"),
  "C05": ("stateless model checking of the real code under a hand-written controlled scheduler: preemption-bounded depth-first exploration of ALL schedules of 2-3 thread scenarios on the overlay-instrumented build, with a vector-clock race detector, solo-result oracle and deadlock detection",
          "pongo2 is rebuilt through a source instrumenter (go build -overlay; /repo untouched): sync primitives report to a cooperative scheduler, every store/load of shared-reachable memory and every method call on a foreign object (bytes.Buffer ...) is hooked. For every scenario (two or three threads executing one compiled template with different contexts, executing while another thread compiles or fetches in the same set, cache operations) all schedules up to 1 (thorough 2) preemptions are executed on freshly built shared state; each thread's result must equal its solo result, no happens-before-unordered conflicting access pair may exist, no deadlock.",
          "Sequentially consistent interleavings at the instrumented points only; accesses inside the standard library are seen only as calls on the object; the quantifier's static clause is not covered. If the instrumented build fails while /repo compiles, the check degrades (stores only, then sync shim only) and says so; it never turns a tool failure into an alarm.",
-         "DESIGN.md §3 C05"),
+         "DESIGN.md §3 (C05), §4, §6"),
  "C20": ("explicit-state exploration of all cache operation histories (depth <=5/6, two sets) against a map model, plus preemption-bounded exploration of ALL schedules of 2-3 concurrent thread programs with a brute-force linearisability check against the same model",
          "Sequential: every history over FromCache/CleanCache/Debug/content change/failing file on two sets is replayed on real sets; error, object identity class, rendered content (version at load time, the set's own global) and fetch count of every call must match the model. Concurrent: every pair of thread programs of length <=2 (thorough: triples) under the controlled scheduler, all schedules up to 2 (3) preemptions; every schedule must be linearisable (returned identities and number of loads explained by some interleaving), race-free, deadlock-free.",
          "Runs on the overlay-instrumented build like C05; loader Get is an I/O scheduling point.",
-         "DESIGN.md §3 C20"),
+         "DESIGN.md §3 (C20), §4, §6"),
 }
 
 NOT_YET = {}
